@@ -94,6 +94,7 @@ class Peer:
         self.tokens = {}  # corr -> [tokens sent under that corr id]
         self.terminated = None  # (time, why) once a connection-terminating fault was emitted
         self.next_send = 0.0
+        self.conn_last = {}  # conn id -> time of the last response scheduled on it
         self.conn = None
 
     def accepting(self):
@@ -121,8 +122,15 @@ class Peer:
             conn.send(wire.encode_response(req, body), tag=("ApiVersions", req.correlation_id))
             return
         if req.name == "Metadata" and not req.body["topics"]:
-            conn.send(wire.encode_response(req, self.metadata_body("boot")),
-                      tag=("Metadata", req.correlation_id))
+            # a broker answers one connection's requests in order: a metadata refresh
+            # the client adds on its own queues behind responses still being delayed
+            data = wire.encode_response(req, self.metadata_body("boot"))
+            tag = ("Metadata", req.correlation_id)
+            t = self.conn_last.get(conn.id, 0.0)
+            if t <= w.now():
+                conn.send(data, tag=tag)
+            else:
+                w.loop.call_at(t, self._emit_plain, conn, data, tag, context=L.sim_context())
             return
         self.nreq += 1
         if req.name == "Produce":
@@ -138,6 +146,14 @@ class Peer:
             self.tokens.setdefault(req.correlation_id, []).append(tokval)
         if fk == "wrong_corr":
             corr = (req.correlation_id + 1 + fault["arg"]) % 2**31
+            if corr == 0 and self.plan.get("quirk"):
+                corr = 1  # id 0 is what a 0.8.2 broker puts on every FindCoordinator v0 reply
+        if fk == "dup" and corr == 0 and self.plan.get("quirk"):
+            # Against a broker with the 0.8.2 quirk a second frame carrying id 0 is, for
+            # a following FindCoordinator v0 request, indistinguishable from its own
+            # reply (conn.py accepts it by design).  The stray frame is still injected,
+            # but under an id that no request can own.
+            fk = "unsolicited"
         data = wire.encode_response(req, body, correlation_id=corr)
         self.tokens.setdefault(corr, []).append(tokval)
         pieces = []  # list of (bytes, terminating?) to emit in order
@@ -168,8 +184,13 @@ class Peer:
             pieces.append((data, None))
         t = max(w.now() + spec["delay"], self.next_send)
         self.next_send = t
+        self.conn_last[conn.id] = t
         w.loop.call_at(t, self._emit, conn, req, pieces, spec.get("cuts", []), corr, tokval,
                        context=L.sim_context())
+
+    def _emit_plain(self, conn, data, tag):
+        if not conn.server_closed:
+            conn.send(data, tag=tag)
 
     def _emit(self, conn, req, pieces, cuts, corr, tokval):
         w = self.world
@@ -284,15 +305,23 @@ def execute(plan):
     def on_resp(conn, tag):
         if isinstance(tag, tuple) and tag and tag[0] == "frame":
             _, corr, tokval, why = tag
-            frames_delivered.append((world.log.seq, world.now(), corr, tokval, why))
+            frames_delivered.append((world.log.seq, world.now(), corr, tokval, why, conn.id))
 
     def on_end(conn, how):
         if how in ("eof", "reset") and term["t"] is None:
-            term.update(t=world.now(), why=how, seq=world.log.seq)
+            term.update(t=world.now(), why=how, seq=world.log.seq, conn=conn.id)
+
+    written = {}  # plan request index -> (conn id, time) of the write that carried it
+
+    def on_write(conn, req):
+        if req.name in ("ApiVersions", "Produce") or (req.name == "Metadata" and not req.body["topics"]):
+            return
+        written.setdefault(Peer.index_of(req), (conn.id, world.now()))
 
     world.subscribe("client_response", on_resp)
     world.subscribe("conn_end", on_end)
-    state = {}
+    world.subscribe("client_write", on_write)
+    state = {"written": written}
 
     async def waiter_task(w, aw):
         t = asyncio.ensure_future(aw)
@@ -304,7 +333,11 @@ def execute(plan):
             else:
                 exc = t.exception()
                 if exc is None:
-                    w["outcome"] = ("ok", token_of(w["kind"], t.result()))
+                    try:
+                        tok = token_of(w["kind"], t.result())
+                    except Exception as e2:  # noqa: BLE001  not a response of this kind
+                        tok = f"<unreadable as {w['kind']}: {type(e2).__name__}>"
+                    w["outcome"] = ("ok", tok)
                 elif isinstance(exc, asyncio.TimeoutError):
                     w["outcome"] = ("timeout", None)
                 elif isinstance(exc, Errors.KafkaError):
@@ -338,6 +371,7 @@ def execute(plan):
             await client.ready(1)
             conn = client._conns[(1, 0)]
         state["conn"] = conn
+        state["conn_id"] = max(c.id for c in world.net.conns if c is not None)
         if not hasattr(conn, "_correlation_id"):
             raise RuntimeError("seam missing: AIOKafkaConnection._correlation_id")
         if plan["corr_start"]:
@@ -363,7 +397,7 @@ def execute(plan):
                     c = client._conns.get((1, 0))
                     aw = client.send(1, req)
                     w["corr"] = None
-            except Errors.KafkaError as exc:
+            except (Errors.KafkaError, OSError) as exc:
                 w["outcome"] = ("send_raised", type(exc).__name__)
                 w["t_done"] = world.now()
                 waiters.append(w)
@@ -378,7 +412,11 @@ def execute(plan):
         horizon = timeout * 4 + 1.0 + sum(s["delay"] for s in plan["reqs"])
         done, pending = await asyncio.wait(tasks, timeout=horizon) if tasks else (set(), set())
         state["pending"] = len(pending)
+        # the last waiter can resolve in the same instant in which a stray frame is
+        # fed to the reader; let the read task run before sampling connected()
+        await asyncio.sleep(0.005)
         state["connected_end"] = conn.connected()
+        state["t_connected_end"] = world.now()
         state["transport_closing"] = None
         for t in pending:
             t.cancel()
@@ -448,10 +486,17 @@ def oracle(plan, world, peer, waiters, term, frames_delivered, state, timeout):
                 v("unexpected_error_class", {"i": w["i"], "error": name})
         else:
             v("unexpected_error_class", {"i": w["i"], "error": out[1]})
-    # when did the connection have to die?  (first terminating event delivered)
-    tt = term["t"]
-    why_t = term["why"]
-    for (seq, t, corr, tok, why) in frames_delivered:
+    # When did the connection under test have to die?  (first terminating event
+    # delivered on it.)  Through AIOKafkaClient a request issued around that instant
+    # may already travel on the replacement connection: ownership of a request is
+    # read off the write that carried it, not off the time send() was called.
+    cid0 = state.get("conn_id")
+    written = state.get("written", {})
+    tt = term["t"] if term.get("conn") == cid0 else None
+    why_t = term["why"] if tt is not None else None
+    for (seq, t, corr, tok, why, cid) in frames_delivered:
+        if cid != cid0:
+            continue
         if tt is not None and t >= tt:
             break
         if why in ("unsolicited", "dup", "size_negative", "wrong_corr"):
@@ -470,7 +515,11 @@ def oracle(plan, world, peer, waiters, term, frames_delivered, state, timeout):
             out = w["outcome"]
             if out is None or out[0] in ("noresp", "send_raised"):
                 continue
-            if w["t_send"] <= tt and w.get("t_done") is not None and w["t_done"] > tt + 1e-4:
+            wr = written.get(w["i"])
+            if wr is None or wr[0] != cid0 or wr[1] > tt:
+                continue  # never written, or carried by another connection
+            world.probe("outstanding_at_connection_loss")
+            if w.get("t_done") is not None and w["t_done"] > tt + 1e-4:
                 if out[0] in ("kafka_error",):
                     v("waiter_failed_late_after_connection_loss",
                       {"i": w["i"], "lag": w["t_done"] - tt, "why": term["why"] or fk})
@@ -480,5 +529,6 @@ def oracle(plan, world, peer, waiters, term, frames_delivered, state, timeout):
                        "lag": w["t_done"] - tt})
                 elif out[0] == "ok":
                     v("response_after_connection_loss", {"i": w["i"], "why": term["why"] or fk})
-        if state.get("connected_end") and (term["why"] or fk) not in ("size_huge", "overlong"):
+        if state.get("connected_end") and tt <= state["t_connected_end"] - 1e-3 and \
+                (term["why"] or fk) not in ("size_huge", "overlong"):
             v("connection_still_reported_connected", {"why": term["why"] or fk})
